@@ -146,6 +146,8 @@ func execLine(line string) (out string) {
 		return opVTwice(f[1:])
 	case "smempty":
 		return opSMEmpty(f[1:])
+	case "empt":
+		return opEmpt(f[1:])
 	}
 	return "harness-error unknown op " + f[0]
 }
@@ -1015,4 +1017,51 @@ func opSMEmpty(a []string) string {
 		return "dec=ok enc=err"
 	}
 	return "dec=ok enc=" + hx(enc)
+}
+
+// empt KIND HEX nil|empty : decode a one-signature structure (retained raw buckets present), empty
+// its signature — what a failed re-signing leaves behind — and encode again: never encodes
+func opEmpt(a []string) string {
+	data := unhex(a[1])
+	var empty []byte
+	if a[2] != "nil" {
+		empty = []byte{}
+	}
+	var enc []byte
+	var err error
+	switch a[0] {
+	case "s1", "s1u":
+		var m cose.Sign1Message
+		if a[0] == "s1" {
+			err = m.UnmarshalCBOR(data)
+		} else {
+			err = (*cose.UntaggedSign1Message)(&m).UnmarshalCBOR(data)
+		}
+		if err != nil {
+			return "dec=err"
+		}
+		m.Signature = empty
+		if a[0] == "s1" {
+			enc, err = m.MarshalCBOR()
+		} else {
+			enc, err = (*cose.UntaggedSign1Message)(&m).MarshalCBOR()
+		}
+	case "sig", "csig":
+		var sg cose.Signature
+		if err = sg.UnmarshalCBOR(data); err != nil {
+			return "dec=err"
+		}
+		sg.Signature = empty
+		if a[0] == "sig" {
+			enc, err = sg.MarshalCBOR()
+		} else {
+			enc, err = (*cose.Countersignature)(&sg).MarshalCBOR()
+		}
+	default:
+		return "harness-error empt kind"
+	}
+	if err != nil {
+		return "dec=ok enc=err"
+	}
+	return "dec=ok enc=" + hx(enc) + " empty-signature-emitted"
 }
